@@ -218,6 +218,15 @@ static void probe(Matrix& M, Vector& v, const std::string& p, long i, long j)
 		sink = (i == 0) ? M.Trace() : M.Determinant();
 	else if(p == "SubM")
 		sink = M.Sub_Matrix((int)i, (int)j).Rows();
+	else if(p == "VPlusSame" || p == "VPlusOther")
+		sink = (v + Vector(v.Size() + (p == "VPlusOther" ? 1 : 0), 1.0)).Size();
+	else if(p == "VMinusEqSame" || p == "VMinusEqOther")
+	{
+		v -= Vector(v.Size() + (p == "VMinusEqOther" ? 1 : 0), 1.0);
+		sink = v.Size();
+	}
+	else if(p == "VDotSame" || p == "VDotOther")
+		sink = v.Dot(Vector(v.Size() + (p == "VDotOther" ? 1 : 0), 1.0));
 }
 
 int main(int argc, char** argv)
@@ -293,10 +302,14 @@ int main(int argc, char** argv)
 						}
 					}
 					if(vkey)
+					{
 						for(const char* p : {"VIdx", "VIdxC"})
 							for(long i : {n - 1, n, n + 1, 9999L})
 								if(i >= 0)
 									ps.emplace_back(p, i, 0);
+						for(const char* p : {"VPlusSame", "VPlusOther", "VMinusEqSame", "VMinusEqOther", "VDotSame", "VDotOther"})
+							ps.emplace_back(p, 0, 0);
+					}
 					if(xkey && r >= 1 && c >= 1)
 						for(const char* p : {"MatVec", "VecMat"})
 							ps.emplace_back(p, 0, 0);
